@@ -79,7 +79,7 @@ def run(rep):
     d.conclude('time.c <-> Model/Time.lean')
 
     # the text of the header: strptime and the layouts against the executable model and the RFC 5322 grammar (tools/c15date.py)
-    dd, dstat = c15date.stage(rep, rng, h, env, sc, 1500 if rep.tier == 'quick' else 60000, TZS)
+    dd, dstat = c15date.stage(rep, rng, h, dict(env, LC_ALL='C'), sc, 1500 if rep.tier == 'quick' else 60000, TZS)
     dd.conclude('strptime / timeparse / time_parse <-> Model/Strptime.lean')
 
     # date conditions around the true age, units, abbreviations, overflow: through the real parser and evaluator
@@ -219,17 +219,34 @@ def run(rep):
         cov = c15date.covered(f, lay)
         if not cov and not (f['dow'] is None and f['sec'] is None):
             continue
+        if rng.random() < 0.3:
+            # what follows the zone is not looked at (theorem C15_date_text_lenient: the trailer is arbitrary): a comment holding the zone
+            # name in the sender's 8-bit code page, valid and invalid UTF-8, a no-break space
+            lay = dict(lay, tr=rng.choice([' (Mitteleurop\xe4ische Sommerzeit)', ' (\xc9t\xe9)', ' (\xff)', '\xa0(x)', ' (caf\xc3\xa9)', ' (\xe4', '\xe4']))
         age = ec.NOW - c15date.instant(f)
         cmp_ = rng.choice(['<', '>'])
         thr = min(2 ** 32 - 1, max(0, age + rng.choice([-1, 0, 1])))
         conf = 'maildir "~/md" {\n\tmatch date %s%s %d seconds move "~/dst/a"\n}\n' % (rng.choice(['', 'header ']), cmp_, thr)
         mcases.append(ec.Case(conf, [], b'To: a\nDate: ' + A(c15date.render(f, lay)) + b'\n\nb\n', 'new', '1.host', '0', tz=rng.choice(TZS[:-2])))
         mexp.append((('MATCH' if ((age > thr) if cmp_ == '>' else (age < thr)) else 'NOMATCH') if cov else 'ERROR', f))
-    ec.run_cases(h, env, mcases, want_spec=False, denv=dict(os.environ, MDSORT_STRPTIME='model'))
+    # LC_ALL is given to both sides explicitly: the harness environment (vlib.ASAN_ENV) is a snapshot taken when vlib is imported, before
+    # check.py sets LC_ALL=C, and keeps the LC_CTYPE=C.UTF-8 that Python's locale coercion exports; the headers below hold 8-bit bytes
+    ec.run_cases(h, dict(env, LC_ALL='C'), mcases, want_spec=False, denv=dict(os.environ, LC_ALL='C', MDSORT_STRPTIME='model'))
     stat['model_strptime_eval_cases'] = len(mcases)
     stat['rfc_header_eval_cases'] = sum(1 for w, f in mexp if f is not None)
     stat['rfc_header_eval_uncovered_errors'] = sum(1 for w, f in mexp if w == 'ERROR')
+    # the headers of the grammar once more under the UTF-8 locale (mdsort does setlocale(LC_CTYPE, ""): the regex library that sees the header
+    # text after the age comparison, isspace / tolower of strptime and the driver's side all follow it)
+    ucases, uexp = [], []
     for c, (want, f) in zip(mcases, mexp):
+        if f is not None:
+            u = ec.Case(c.conf, [], c.msg, 'new', '1.host', '0', tz=c.tz)
+            u.locale = 'C.utf8'
+            ucases.append(u)
+            uexp.append((want, f))
+    ec.run_cases(h, dict(env, LC_ALL='C.utf8'), ucases, want_spec=False, denv=dict(os.environ, LC_ALL='C.utf8', MDSORT_STRPTIME='model'))
+    stat['rfc_header_eval_cases_utf8_locale'] = len(ucases)
+    for c, (want, f) in zip(mcases + ucases, mexp + uexp):
         if c.note == 'fault':
             rep.finding('sanitizer-fault', dict(c.readable(), implementation=c.impl))
             continue
@@ -293,4 +310,26 @@ def replay(rep, path):
         conffam.replay(j, sc)
         rep.coverage.update({'evaluations': 1, 'distinct_nontrivial': 1})
         return
-    mc.generic_replay(rep, path, 'C15', {'tparse'}, {}, included=ec.INCLUDED, hname='h_expr')
+    if str(j.get('request', '')).startswith('eval ') and j.get('specification') in ('MATCH', 'NOMATCH') and 'file_times' not in j:
+        # a date condition evaluated on a message (families `age` and RFC 5322 headers): the real evaluator under the recorded locale
+        # against the recorded expectation and against the model with Model.timeparseC as its strptime
+        sc = vlib.Scratch()
+        h, env = ec.harness(sc)
+        vlib.lean_gate(rep, 'C15', sc, [])
+        t = j['request'].split(' ')
+        un = lambda x: vlib.unhex(x).decode('latin-1')    # noqa: E731
+        c = ec.Case(un(t[1]), [], vlib.unhex(t[2]), un(t[3]), un(t[4]), un(t[5]), tz=un(t[7]) if len(t) > 7 else None)
+        loc = str(j.get('locale') or 'LC_ALL=C').split('=')[-1]
+        c.locale = loc
+        ec.run_cases(h, dict(env, LC_ALL=loc), [c], want_spec=False, denv=dict(os.environ, LC_ALL=loc, MDSORT_STRPTIME='model'))
+        got = c.impl.split(' ')[0] if c.impl else None
+        print('locale         LC_ALL=%s\nimplementation %s\nmodel          %s\nspecification  %s' % (loc, (c.impl or '')[:300], (c.model or '')[:300], j['specification']))
+        if got != j['specification']:
+            rep.finding('unlisted', dict(c.readable(), implementation=(c.impl or '')[:200], specification=j['specification'],
+                                         what=j.get('what', 'date condition does not compare the true age')))
+        elif c.model is None or ec.impl_core(c) != ec.model_core(c):
+            rep.violation({'obligation': 'correspondence expr_eval_date <-> Model/Eval.lean', 'examples': [dict(c.readable(), implementation=c.impl, model=c.model)]}, False)
+        vlib.lean_conclude(rep)
+        rep.coverage.update({'evaluations': 1, 'distinct_nontrivial': 1})
+        return
+    mc.generic_replay(rep, path, 'C15', {'tparse', 'tparsec', 'strp', 'timeparse'}, {}, included=ec.INCLUDED, hname='h_expr')
